@@ -46,7 +46,7 @@ class AccessMixin:
             return None
         key, ty = info
         if ty == OPQ:
-            return Opaque(f"{cls}.{field}")
+            return Opaque(f"{self.describe(obj)}.{field}", fresh=obj.t.sexpr() in getattr(ctx, "fresh_refs", set()))
         arr = self.heap_array(key, ty)
         ck = (key, obj.t.sexpr())
         if ty.name in ("List", "Map", "Set"):
